@@ -11,6 +11,8 @@ HERE = os.path.dirname(os.path.dirname(os.path.abspath(__file__)))
 sys.path.insert(0, HERE)
 
 NOT_YET = "check under construction in this round; not yet registered"
+# only checks that have been run silently on the unchanged tree over several seeds are registered
+REGISTERED = [l.strip() for l in open(os.path.join(HERE, "tools", "registered.txt")) if l.strip() and not l.startswith("#")]
 
 
 def main():
@@ -21,6 +23,9 @@ def main():
         try:
             mod = importlib.import_module("oracles." + pid.lower())
         except ImportError:
+            na.append({"property_id": pid, "reason": NOT_YET})
+            continue
+        if pid not in REGISTERED:
             na.append({"property_id": pid, "reason": NOT_YET})
             continue
         if not getattr(mod, "CLAIMED", True):
